@@ -1,4 +1,4 @@
 SPECIFICATION RSpec
 CONSTANTS MaxRegs = 3
-INVARIANTS TypeOK AgreesWithRef LiteralWins FirstPatternWins ReRegisterReplaces NotExistIffNothing Emit
+INVARIANTS TypeOK AbstractionAgrees AgreesWithRef LiteralWins FirstPatternWins ReRegisterReplaces NotExistIffNothing Emit
 CHECK_DEADLOCK FALSE
